@@ -163,6 +163,31 @@ class _PPath(Model):
     def __truediv__(self, o):
         return _PPath(self._p + "/" + str(o))
 
+    def joinpath(self, *parts):
+        return _PPath("/".join([self._p] + [str(x) for x in parts]))
+
+    def with_name(self, name):
+        return _PPath((self._p.rsplit("/", 1)[0] + "/" if "/" in self._p else "") + str(name))
+
+    def with_suffix(self, suffix):
+        head, _, tail = self._p.rpartition("/")
+        stem = tail.rsplit(".", 1)[0] if "." in tail else tail
+        return _PPath((head + "/" if head else "") + stem + suffix)
+
+    @property
+    def name(self):
+        return self._p.rsplit("/", 1)[-1]
+
+    @property
+    def suffix(self):
+        n = self._p.rsplit("/", 1)[-1]
+        return "." + n.rsplit(".", 1)[1] if "." in n[1:] else ""
+
+    @property
+    def stem(self):
+        n = self._p.rsplit("/", 1)[-1]
+        return n.rsplit(".", 1)[0] if "." in n[1:] else n
+
     def __str__(self):
         return self._p
 
@@ -327,6 +352,22 @@ class MRe(Model):
 class MPattern(Model):
     def __init__(self, p):
         self._p = p
+
+    @property
+    def groups(self):
+        return self._p.groups
+
+    @property
+    def groupindex(self):
+        return dict(self._p.groupindex)
+
+    @property
+    def pattern(self):
+        return self._p.pattern
+
+    @property
+    def flags(self):
+        return self._p.flags
 
     def search(self, text, *a):
         m = self._p.search(text, *a)
